@@ -530,7 +530,11 @@ def opt_parts(v):
     return "true", v
 
 
+TOUCHED: set = set()   # (relative file, qualified name) of every definition a kernel looked at
+
+
 def find_function(tree: ast.Module, qualname: str) -> ast.FunctionDef:
+    TOUCHED.add((getattr(tree, "_rel", "?"), qualname))
     parts = qualname.split(".")
     body = tree.body
     node = None
